@@ -1,0 +1,52 @@
+//go:build verif
+
+package types
+
+// VerifMapEntry describes one key of a Map for the verification harness:
+// where the key is held and the pointer state of its entry.
+type VerifMapEntry[TKey comparable, TValue any] struct {
+	Key     TKey
+	InRead  bool
+	InDirty bool
+	// Same reports that the read map and the dirty map hold the very same entry for Key.
+	Same bool
+	// ReadState / DirtyState: 0 a value, 1 nil, 2 expunged (of the entry held by that map).
+	ReadState, DirtyState int
+	ReadValue, DirtyValue TValue
+}
+
+func verifEntryState[TValue any](e *entry[TValue]) (int, TValue) {
+	var zero TValue
+	p := e.p.Load()
+	switch {
+	case p == nil:
+		return 1, zero
+	case p == e.expunged:
+		return 2, zero
+	}
+	return 0, *p
+}
+
+// VerifDump returns the internal state of the Map (read map, dirty map, amended flag,
+// miss counter) without changing it. Only built with the tag verif.
+func (m *Map[TKey, TValue]) VerifDump() (entries []VerifMapEntry[TKey, TValue], amended, dirtyNil bool, misses int) {
+	m.mu.Lock()
+	defer m.mu.Unlock()
+	read := m.loadReadOnly()
+	seen := map[TKey]int{}
+	for k, e := range read.m {
+		st, v := verifEntryState(e)
+		seen[k] = len(entries)
+		entries = append(entries, VerifMapEntry[TKey, TValue]{Key: k, InRead: true, ReadState: st, ReadValue: v})
+	}
+	for k, e := range m.dirty {
+		st, v := verifEntryState(e)
+		if i, ok := seen[k]; ok {
+			entries[i].InDirty, entries[i].DirtyState, entries[i].DirtyValue = true, st, v
+			entries[i].Same = read.m[k] == e
+		} else {
+			entries = append(entries, VerifMapEntry[TKey, TValue]{Key: k, InDirty: true, DirtyState: st, DirtyValue: v})
+		}
+	}
+	return entries, read.amended, m.dirty == nil, m.misses
+}
